@@ -73,6 +73,11 @@ type Contract struct {
 	Appends   []string // ghost logs that receive exactly one entry per call (trusted primitives only)
 }
 
+type Pinned struct {
+	Callee string
+	Value  string
+}
+
 type Immutable struct {
 	Path    string
 	Writers []string
@@ -96,6 +101,7 @@ type ContractSet struct {
 	consts   map[string]bool
 	typeInvs map[string][]*Clause
 	immutables []Immutable
+	pinned     []Pinned
 }
 
 var labelRe = regexp.MustCompile(`^([A-Za-z][A-Za-z0-9_.\-@]*):\s+`)
@@ -141,6 +147,15 @@ func (cs *ContractSet) parseContractText(file string, lines []string, lineNos []
 			a, p := splitWord(rest)
 			p = strings.Trim(strings.TrimSpace(p), `"`)
 			cs.imports[a] = p
+		case "pinned":
+			// pinned <callee> <Go string literal>: every call of callee passes exactly this constant
+			w, lit := splitWord(rest)
+			v, err := strconv.Unquote(strings.TrimSpace(lit))
+			if err != nil {
+				cs.errs = append(cs.errs, src+": pinned: bad string literal")
+				continue
+			}
+			cs.pinned = append(cs.pinned, Pinned{Callee: w, Value: v})
 		case "immutable":
 			// immutable T.path writers F1, F2
 			parts := strings.SplitN(rest, " writers ", 2)
